@@ -280,7 +280,7 @@ func checkC19(c *Check) {
 	c.RuleDoc["R19.4"] = "BlockSizeIndex.IsValid accepts exactly 4..7"
 	c.RuleDoc["R19.5"] = "ValidFrameHeader outcome classes"
 	c.RuleDoc["R19.6"] = "content size store and Size()"
-	for _, cfg := range cfgsFor(c.Tier)[:1] {
+	for _, cfg := range []Config{cfgAMD64} {
 		p := loadOrTrouble(c, cfg)
 		if p == nil {
 			return
